@@ -263,3 +263,13 @@ Theorem C08_Skip_from_source :
   (forall buf rd wt u, wt <> 0 -> wt <> 1 -> wt <> 2 -> wt <> 5 -> Gen_protoskip.BinaryProtocol_Skip buf rd wt u = (0, buf, rd)).
 Proof. split; [exact GenProtoskipProofs.Skip_is_wdec_val | exact GenProtoskipProofs.Skip_other]. Qed.
 Print Assumptions C08_Skip_from_source.
+
+(* ================================================================== (G) the finite test from the Go source *)
+(* conv/p2j checkFinite (gen/Gen_p2jfinite.v, regenerated from the Go text on every build; math.IsNaN / math.IsInf are read as tests on
+   the IEEE bit pattern) rejects exactly the doubles the model has no JSON image for: those that are not Num.f64_is_finite *)
+From DG Require Num Gen_p2jfinite GenFiniteProofs.
+Theorem C08_checkFinite_from_source :
+  forall b e, 0 <= b ->
+  Gen_p2jfinite.checkFinite b e = if Num.f64_is_finite b then (0, []) else (e, [(Gen_p2jfinite.Eff_wrapError, [6])]).
+Proof. exact GenFiniteProofs.checkFinite_is_finite. Qed.
+Print Assumptions C08_checkFinite_from_source.
